@@ -154,6 +154,10 @@ func (srv *Server) handleChannel(ctx context.Context, c *ServerChannel) {
 			ctx, cancel := context.WithTimeout(context.Background(), time.Second)
 			defer cancel()
 			_ = c.FinishSession(ctx)
+		} else {
+			// the session already ended (finished by the client, failed, or its connection was lost):
+			// make sure the receiver and the connection are released
+			_ = c.Close()
 		}
 
 		finished := srv.config.Finished
